@@ -12,11 +12,50 @@ def calls_named(fn, name, contains=None):
 
 
 def closure_of(crate, e):
-    """Fn of a closure aggregate expression (searching inside refs)"""
+    """Fn of a closure aggregate expression (searching inside refs); a named fn item / method reference of
+    the same crate passed where a closure is expected is returned as well (second component: the `fn` node)"""
     for sub in walk(e):
         if sub[0] == 'agg' and sub[1].startswith('closure:'):
             return crate.fns.get(sub[1][len('closure:'):]), sub
+    for sub in walk(e):
+        if sub[0] == 'fn' and sub[1] in crate.fns:
+            return crate.fns[sub[1]], sub
     return None, None
+
+
+def item_param(cf):
+    """index of the parameter that receives the item: 2 for a closure (1 is its environment), 1 for a fn item"""
+    return 2 if cf.is_closure else 1
+
+
+def simplify(e, depth=0):
+    """fold projections of aggregates that substitution exposes: field i of a closure / tuple aggregate"""
+    if depth > 40 or not isinstance(e, tuple):
+        return e
+    k = e[0]
+    if k == 'field':
+        b = simplify(e[1], depth + 1)
+        sb = strip_refs(b)
+        if sb[0] == 'agg' and (sb[1].startswith('closure:') or sb[1] == 'tuple') and e[2].isdigit() and int(e[2]) < len(sb[2]):
+            return simplify(sb[2][int(e[2])], depth + 1)
+        return ('field', b, e[2])
+    if k in ('deref', 'ref', 'subslice'):
+        return (k, simplify(e[1], depth + 1))
+    if k == 'downcast':
+        return (k, simplify(e[1], depth + 1), e[2])
+    if k == 'cast':
+        return (k, simplify(e[1], depth + 1), e[2])
+    if k == 'index':
+        return (k, simplify(e[1], depth + 1), simplify(e[2], depth + 1))
+    if k == 'bin':
+        return (k, e[1], simplify(e[2], depth + 1), simplify(e[3], depth + 1))
+    if k == 'un':
+        return (k, e[1], simplify(e[2], depth + 1))
+    if k == 'call':
+        return (k, e[1], tuple(simplify(a, depth + 1) for a in e[2]), e[3])
+    if k == 'agg':
+        return (k, e[1], tuple(simplify(a, depth + 1) for a in e[2]))
+    return e
 
 
 def ret_expr(fn):
@@ -321,10 +360,57 @@ def resolve_captures(crate, cf, e, depth=0):
     """rewrite an expression of a (possibly nested) closure in terms of its top-level function:
     captured variables are replaced by the captured operands, level by level"""
     while cf is not None and cf.is_closure and depth < 6:
-        e2_ = subst_upvars(crate, cf, e)
+        e2_ = simplify(subst_upvars(crate, cf, e))
         parent, agg = parent_agg(crate, cf)
         if agg is None:
             break
         e, cf = e2_, parent
         depth += 1
     return e
+
+
+def len_lower_bound(fn, bi):
+    """lower bound on `len()` of each collection implied by the guards of block bi: {normalised collection: lb}
+    (value matches excluding small constants, is_empty, comparisons of len with constants)"""
+    import facts as _f
+    lbs = {}
+    facts_ = []
+    for c in fn.conds(bi):
+        a = strip_refs(c['a']) if c.get('a') is not None else None
+        if a is None:
+            continue
+        if c['kind'] == 'Is:is_empty' and c.get('truth') is False:
+            facts_.append((norm(a), 'ge', 1))
+        elif a[0] == 'call' and short(a[1]) == 'len' and a[2]:
+            coll = norm(a[2][0])
+            if c['kind'] == 'value':
+                t = fn.blocks[c['switch']]['term']
+                listed = sorted(int(v) for v, _ in t['targets'] if v.isdigit())
+                if 'else' in c['values'] and not any(v.isdigit() for v in c['values']):
+                    for v in listed:
+                        facts_.append((coll, 'ne', v))
+            elif c.get('b') is not None and c['b'][0] == 'const' and c['b'][1] is not None:
+                try:
+                    k = int(float(c['b'][1]))
+                except (TypeError, ValueError):
+                    continue
+                kind, truth = c['kind'], c.get('truth')
+                if kind == 'Eq' and truth is False:
+                    facts_.append((coll, 'ne', k))
+                elif kind == 'Gt' and truth is True or kind == 'Le' and truth is False:
+                    facts_.append((coll, 'ge', k + 1))
+                elif kind == 'Ge' and truth is True or kind == 'Lt' and truth is False:
+                    facts_.append((coll, 'ge', k))
+        elif a[0] == 'len':
+            pass
+    for coll, k, v in facts_:
+        if k == 'ge':
+            lbs[coll] = max(lbs.get(coll, 0), v)
+    changed = True
+    while changed:
+        changed = False
+        for coll, k, v in facts_:
+            if k == 'ne' and lbs.get(coll, 0) == v:
+                lbs[coll] = v + 1
+                changed = True
+    return lbs
